@@ -319,9 +319,10 @@ def foreign_sessions(framer):
     # a SINGLE context hosts every unit id, the non-significant 0xFF and the reserved 248..254 included: all three
     # front-ends must serve them alike (write, then read back)
     sp = {"single": True, "units": [0], "size": 16}
-    for uid in (255, 248, 254, 247):
-        w = L.frame(framer, 0x1131, uid, L.pdu_write_reg(3, 0x0C00 + uid))
-        rd = L.frame(framer, 0x1132, uid, L.pdu_read(3, 3, 1))
+    # (transaction ids at the ends of the 16-bit range ride along: every front-end echoes them unchanged)
+    for uid, (t1, t2) in zip((255, 248, 254, 247), ((0xFFFF, 0x0000), (0xFFFE, 0xFFFF), (0x0000, 0x0001), (0x8000, 0x7FFF))):
+        w = L.frame(framer, t1, uid, L.pdu_write_reg(3, 0x0C00 + uid))
+        rd = L.frame(framer, t2, uid, L.pdu_read(3, 3, 1))
         for ign in (False, True):
             out.append((sp, {"broadcast_enable": False, "ignore_missing_slaves": ign}, [[(w, [w]), (rd, [rd])]]))
     return out
